@@ -294,7 +294,13 @@ func (s *series) runGen(n int, g Gen) {
 		if first.Dir == "output" {
 			kind = "out"
 		}
-		ia := x.Connect(kind, key+"-intruder", g.WK, false)
+		// (every second one presents the dying shell's own ID)
+		ikey := key + "-intruder"
+		if (s.idx+n)%2 == 1 {
+			ikey = key
+			s.r.Count("intruders_with_the_dying_shells_id", 1)
+		}
+		ia := x.Connect(kind, ikey, g.WK, false)
 		for _, st := range x.StreamsOf(ia) {
 			if st.Reason == bk.MsgNew { // it was attached after all: then it is part of what must be torn down
 				atts = append(atts, ia)
@@ -659,6 +665,8 @@ func Run(r *mon.Run) {
 		r.Floor("series_with_slow_listener", 5)
 		r.Floor("readers_holding_the_stream_end_behind_a_full_queue", 10)
 		r.Floor("readers_back_in_read_with_an_exactly_full_queue", 10)
+		r.Floor("intruders_in_teardown_window", 20)
+		r.Floor("intruders_with_the_dying_shells_id", 8)
 	}
 }
 
